@@ -268,6 +268,46 @@ func notifierRules(c *Ctx) {
 	if q.need(sels, "PATH", "reflect.Select") {
 		sel := sels[0]
 		q.add("WL", "Publish keeps selecting until every send is resolved", P.InCycle(sel), "Select lies in a loop", sel)
+		// the case list handed to Select is rebuilt on every iteration as exit ++ failure ++ success (the index
+		// arithmetic that follows subtracts len(exitCases) and len(failureCases) in that order)
+		{
+			okl := false
+			var chain []ssa.Value
+			v := callArg(sel, 0)
+			for i := 0; i < 4; i++ {
+				call, ok := v.(*ssa.Call)
+				if !ok {
+					break
+				}
+				bi, ok := call.Call.Value.(*ssa.Builtin)
+				if !ok || bi.Name() != "append" {
+					break
+				}
+				chain = append([]ssa.Value{call.Call.Args[1]}, chain...)
+				v = call.Call.Args[0]
+			}
+			if mk, ok := v.(*ssa.MakeSlice); ok && len(chain) == 3 && mk.Block() == sel.Block() {
+				if l, isK := constInt(mk.Len); isK && l == 0 {
+					names := []string{}
+					for _, cv := range chain {
+						if ph, ok := cv.(*ssa.Phi); ok {
+							names = append(names, ph.Comment)
+						} else {
+							names = append(names, "?")
+						}
+					}
+					// roles, not names: first operand is loop-invariant (exit cases), the other two are the loop-carried
+					// lists; the middle one is the one whose length is subtracted second
+					_, inv := chain[0].(*ssa.Phi)
+					p1, ok1 := chain[1].(*ssa.Phi)
+					p2, ok2 := chain[2].(*ssa.Phi)
+					okl = ok1 && ok2 && p1.Block() == p2.Block() && P.InCycle(p1) && (!inv || !P.InCycle(chain[0].(*ssa.Phi)) || chain[0].(*ssa.Phi).Block() != p1.Block())
+					_ = names
+				}
+			}
+			q.add("PROV", "every Select sees a fresh exit ++ cancellation ++ send case list", okl,
+				pickS(okl, "the argument is append(append(append(make(0, n), exit...), failure...), success...) built in the Select's block", "the case list handed to reflect.Select is not rebuilt from scratch as exit ++ failure ++ success on every iteration: the index arithmetic after it would address the wrong subscriber"), sel)
+		}
 		chosen := resultOf(sel, 0)
 		for _, r := range returnsOf(fn) {
 			if !P.PathExists(fn, sel, an.Is(r), nil, nil) {
